@@ -220,6 +220,7 @@ func main() {
 	declare("limiterRateIsConfigPerSecond", "Bool", "false")
 	declare("limiterBurstIsConfig", "Bool", "false")
 	declare("cookieStoreKeyArgs", "Nat", "0")
+	declare("cookieStoreAllPairsEncrypted", "Bool", "false") // key pairs (hash, block): an even number of arguments, none nil
 	declare("optHttpOnly", "Bool", "false")
 	declare("optSameSiteLax", "Bool", "false")
 	declare("optPathRoot", "Bool", "false")
@@ -607,6 +608,10 @@ func main() {
 						}
 					}
 					set("cookieStoreKeyArgs", strconv.Itoa(nn), x, src(x))
+					// securecookie.CodecsFromPairs: arguments are (hash key, block key) pairs; a pair without block key (odd trailing
+					// argument or nil) yields a codec that only signs, and EncodeMulti falls back to it when an earlier codec fails
+					allEnc := len(x.Args) >= 2 && len(x.Args)%2 == 0 && nn == len(x.Args)
+					set("cookieStoreAllPairsEncrypted", strconv.FormatBool(allEnc), x, src(x))
 				case strings.HasSuffix(fun, "Header.Get") || strings.HasSuffix(fun, "Header.Set") || strings.HasSuffix(fun, "Header.Del") || strings.HasSuffix(fun, "Header().Set") || strings.HasSuffix(fun, "Header().Get"):
 					if len(x.Args) > 0 {
 						if s, err := strconv.Unquote(src(x.Args[0])); err == nil {
